@@ -179,7 +179,7 @@ def consumers(fn, node):
 
 
 def convert(rep, meta, gen, sfx):
-    r = rep.rule("C09.CONVERT" + sfx, 10,
+    r = rep.rule("C09.CONVERT" + sfx, 6,
                  "no result of a fallible text-to-value conversion (str::parse::<int>, from_str_radix, "
                  "char::from_u32, the crate's unescape) reaches unwrap/expect")
     derived = derived_conversions(meta)
@@ -305,6 +305,18 @@ def zero(rep, meta, sfx):
                             for i, a in enumerate(args):
                                 if hirq.local_id(a) == cnt and i in zero_rejecting_params(h):
                                     ok = True
+                if not ok and cnt is not None:
+                    # `let max = nonzero_bound(&pair)?;` - the count comes out of a helper that hands back a number only
+                    # when it is not 0 (summary read from the helper's body)
+                    lets_z = hirq.lets(fn["body"])
+                    init = peel(lets_z[cnt][0]) if cnt in lets_z and lets_z[cnt][0] is not None else None
+                    if init is not None and kind(init) == "Match" and init.get("src") == "try":
+                        inner = init["scrut"]["args"][0] if kind(init["scrut"]) == "Call" and init["scrut"]["args"] else None
+                        call = peel(inner) if inner is not None else None
+                        h = meta.fn(callee(call)) if call is not None and kind(call) in ("Call", "MethodCall") \
+                            and isinstance(callee(call), str) else None
+                        if h is not None and returns_nonzero(h):
+                            ok = True
                 r.instance(v, where(x))
                 if not ok:
                     r.violation(v, where(x), "%s is built without rejecting a zero count first: the unroller's "
@@ -312,6 +324,34 @@ def zero(rep, meta, sfx):
     for v in COUNTED:
         if v not in found:
             r.violation(v + ":site", "", "construction site of %s not found in the reader" % v)
+
+
+def returns_nonzero(h):
+    """Does h (returning Result<integer, _>) produce Ok(v) only for v != 0?  Recognised: `match x { 0 => Err(..), v =>
+    Ok(v) }` and `if v == 0 { return Err(..) } .. Ok(v)`."""
+    if "core::result::Result<u" not in str(h.get("output", "")) and "Result<u" not in str(h.get("output", "")):
+        return False
+    for x in walk(h["body"]):
+        if kind(x) == "Match":
+            zero_err = False
+            others_ok = True
+            for arm in x["arms"]:
+                lits = [q for q in walk(arm["pat"]) if q.get("k") == "PLit"]
+                b = peel(arm["body"])
+                is_err = kind(b) == "Call" and callee(b) == "core::result::Result::Err"
+                if lits and all(q.get("v") == 0 for q in lits) and is_err:
+                    zero_err = True
+                elif not lits and not (kind(b) == "Call" and callee(b) in ("core::result::Result::Ok", "core::result::Result::Err")):
+                    others_ok = False
+            if zero_err and others_ok:
+                return True
+        if kind(x) == "If" and hirq.diverges(x["then"]):
+            c = peel(x["cond"])
+            if kind(c) == "Binary" and c["op"] == "==" and hirq.lit_value(c["r"]) == 0:
+                rets = [y for y in walk(x["then"]) if kind(y) == "Ret" and y.get("e") is not None]
+                if rets and all(kind(peel(y["e"])) == "Call" and callee(peel(y["e"])) == "core::result::Result::Err" for y in rets):
+                    return True
+    return False
 
 
 def zero_rejecting_params(h):
